@@ -41,8 +41,9 @@ structure Al where
 /-- `realloc`/`malloc` of that many bytes is granted? -/
 abbrev Alloc := Nat → Bool
 
-/-- new state, C return value, value returned by get_idx / found by bsearch, position found by
-bsearch, `free_fn` calls in order -/
+/-- new state, C return value (for `bsearch`: 1 = a slot address was returned, 0 = NULL; for `len`: the
+length), value returned by get_idx / held by the slot bsearch found, index of that slot, `free_fn`
+calls in order -/
 structure Res where
   al : Al
   ret : Int
